@@ -541,6 +541,8 @@ class SimpleGADriver(Driver):
                 fun = obj
             else:
                 constraint_violations = np.array([])
+                # the constraint values are driver-scaled, so compare them with the scaled bounds.
+                lower_s, upper_s, equals_s = self._autoscaler.get_bounds_scaling('constraint')
                 for name, val in self.get_constraint_values().items():
                     con = self._cons[name]
                     # The not used fields will either None or a very large number
@@ -551,10 +553,10 @@ class SimpleGADriver(Driver):
                     has_eq_con = (con['equals'] is not None) and \
                         np.any(np.abs(con['equals']) < almost_inf)
                     if has_lower_con:
-                        lb_diff = val - con['lower']
+                        lb_diff = val - lower_s[name]
                         lb_violation = np.array([0. if d >= 0 else abs(d) for d in lb_diff])
                     if has_upper_con:
-                        ub_diff = val - con['upper']
+                        ub_diff = val - upper_s[name]
                         ub_violation = np.array([0. if d <= 0 else abs(d) for d in ub_diff])
                     if has_lower_con and (not has_upper_con):
                         violation = lb_violation
@@ -563,7 +565,7 @@ class SimpleGADriver(Driver):
                     elif has_upper_con and has_lower_con:
                         violation = np.maximum(lb_violation, ub_violation)
                     elif has_eq_con and not (has_lower_con or has_upper_con):
-                        diff = val - con['equals']
+                        diff = val - equals_s[name]
                         violation = np.absolute(diff)
 
                     constraint_violations = np.hstack((constraint_violations, violation))
